@@ -505,6 +505,7 @@ func Replay(args []string) {
 	out := fs.String("out", "", "trace file")
 	sample := fs.Int("sample", 50, "keep the trace of every n-th agreeing case (all differing ones are kept)")
 	inputs := fs.String("inputs", "", "also write the accepted programs as ndjson {input:[bytes]} (for the Walk and printer suites)")
+	c03 := fs.String("c03", "", "also write every program as ndjson {src, kind: parses|reject, why} for `jsgram file` (C03: accepted / rejected under every Options value)")
 	fs.Parse(args)
 	w := tr.NewWriter(*out)
 	sum := summary{Suite: "scope", Mode: "replay"}
@@ -513,6 +514,11 @@ func Replay(args []string) {
 	if *inputs != "" {
 		inw, _ = os.Create(*inputs)
 		defer inw.Close()
+	}
+	var c03w *os.File
+	if *c03 != "" {
+		c03w, _ = os.Create(*c03)
+		defer c03w.Close()
 	}
 	tid := 0
 	err := tr.ReadCases(*cases, func(line int, raw []byte) {
@@ -526,6 +532,14 @@ func Replay(args []string) {
 			return
 		}
 		seen[src] = true
+		if c03w != nil {
+			kind, why := "parses", "scope-program"
+			if c.Verdict == "rejected" {
+				kind, why = "reject", "lexical-name-declared-twice-in-a-scope"
+			}
+			b, _ := json.Marshal(map[string]interface{}{"src": tr.Ints([]byte(src)), "kind": kind, "why": why})
+			c03w.Write(append(b, '\n'))
+		}
 		sum.Cases++
 		sum.Executions++
 		tid++
